@@ -213,6 +213,55 @@ func (r *run) monitor(events []string, st *scheduler.VerifState, dump string) {
 			}
 		}
 	}
+	// C06.retry_limit: count how often each task was handed to the worker that holds it: once
+	// by the assignment itself (whether or not that response reached the worker) and once
+	// more for every later Synchronize call that was answered with the same task again.
+	pf := strings.Fields(r.primary)
+	for t, tl := range taskLine {
+		if tl["st"] != "3" || tl["w"] == "-" {
+			continue
+		}
+		wk := tl["q"] + "/" + tl["w"]
+		completedNow := len(pf) > 7 && pf[0] == "sync" && pf[2]+"/"+pf[3]+"/"+pf[6] == wk && strings.HasPrefix(pf[7], "c:")
+		pt := prevTask[t]
+		if pt != nil {
+			// the task is named after its lowest operation, which may have gone away
+			if old := lowestOpOf(pt["ops"]); old != t {
+				r.issues[t], r.issuedTo[t] = r.issues[old], r.issuedTo[old]
+			}
+		}
+		if pt == nil || pt["st"] != "3" || pt["q"]+"/"+pt["w"] != wk || completedNow || r.issuedTo[t] != wk {
+			r.issuedTo[t], r.issues[t] = wk, 1
+			continue
+		}
+		for _, ev := range events {
+			if f := strings.Fields(ev); len(f) > 2 && f[0] == "sync" && f[1] == "w="+wk && f[2] == "exec" {
+				r.issues[t]++
+			}
+		}
+	}
+	for _, ev := range events {
+		f := strings.Fields(ev)
+		if len(f) > 1 && f[0] == "msg" && strings.Contains(ev, "done=1 code=13 tok=0") && len(pf) > 0 && pf[0] == "sync" {
+			op := strings.TrimPrefix(f[2], "op=")
+			if tl := prevTask[op]; tl != nil && tl["st"] == "3" {
+				low := lowestOpOf(tl["ops"])
+				// the worker was handed the task once and may re-request it WorkerTaskRetryCount times
+				if n := r.issues[low]; n < 1+r.w.cfg.retryCount {
+					r.failf("violation", timeoutProp(), "C06.retry_limit / C02.faithful", "the task of operation %s failed with INTERNAL (retry limit) after being handed to its current worker only %d time(s); the limit is %d re-requests", op, n, r.w.cfg.retryCount)
+				}
+			}
+		}
+	}
+	// C03: a request with do_not_cache set is never merged into another task
+	if pf := strings.Fields(r.primary); len(pf) > 5 && pf[0] == "exec" && pf[5] == "1" {
+		joined := strings.Join(events, ";")
+		if strings.Contains(joined, "an sel abandoned") && strings.Contains(joined, "msg c="+pf[2]+" ") {
+			r.failf("violation", "C03", "C03.do_not_cache_never_merged", "Execute of client %s has do_not_cache set but was attached to an existing task instead of getting its own", pf[2])
+		}
+	}
+	// C04: no task stays queued while an undrained worker of its queue is waiting for work
+	r.checkIdleWaiting(st)
 	// C03: same final result for all operations of one task; at most one live cacheable task per digest
 	live := map[string]int{}
 	for _, t := range st.Tasks {
@@ -318,4 +367,53 @@ func workerMatches(id, pattern map[string]string) bool {
 		}
 	}
 	return true
+}
+
+func lowestOpOf(ops string) string {
+	low := ""
+	for _, o := range strings.Split(ops, ",") {
+		if low == "" || atoi(o) < atoi(low) {
+			low = o
+		}
+	}
+	return low
+}
+
+// checkIdleWaiting (C04): at the end of a segment every goroutine is blocked.  A worker
+// that is blocked inside Synchronize without a task, is neither terminating nor matched by
+// a drain, while operations are queued in its size class queue, should have been given one.
+func (r *run) checkIdleWaiting(st *scheduler.VerifState) {
+	if r.w.clk.holding() {
+		return // woken-up workers have deliberately not run yet
+	}
+	for i := range st.SizeClassQueues {
+		q := &st.SizeClassQueues[i]
+		queued := 0
+		var count func(i *scheduler.VerifInvocation)
+		count = func(i *scheduler.VerifInvocation) {
+			queued += len(i.QueuedOperations)
+			for k := range i.Children {
+				count(&i.Children[k])
+			}
+		}
+		count(&q.RootInvocation)
+		if queued == 0 {
+			continue
+		}
+		id := r.w.pqIDFor(q.InstanceNamePrefix, q.Platform)
+		for _, wk := range q.Workers {
+			key := fmt.Sprintf("%d/%d/%s", id, q.SizeClass, parseWorkerID(wk.ID))
+			cl, ok := r.w.syncs[key]
+			if !ok || cl.done || wk.CurrentTaskOperation != "" || wk.Terminating {
+				continue
+			}
+			drained := false
+			for _, d := range q.Drains {
+				drained = drained || workerMatches(wk.ID, d)
+			}
+			if !drained {
+				r.failf("violation", "C04", "C04.no_queued_while_parked", "worker %s is blocked in Synchronize waiting for work and is neither drained nor terminating, yet %d operation(s) are queued in its size class queue", key, queued)
+			}
+		}
+	}
 }
